@@ -432,6 +432,9 @@ Definition wit_rows : list grow :=
 Definition wit_cfg (gn stab : bool) : gcfg :=
   {| gen := gn; stabS := stab; rx := true; stabA := stab; nS := 3#5; nA := 1#2 |}.
 
+Lemma wit_strata s : In s (gstrata wit_rows) -> s = 0%nat \/ s = 1%nat.
+Proof. intros H. vm_compute in H. destruct H as [<-|[<-|[]]]; auto. Qed.
+
 Theorem aipsw_stabilized_wsat_refuted :
   exists l, gpositivity l /\ sat_S l /\ sat_A l /\
     (forall r, In r l -> gq1 r == 1#2 /\ gq0 r == 1#2) /\
@@ -440,15 +443,13 @@ Theorem aipsw_stabilized_wsat_refuted :
     (forall gn a, aipsw_risk (wit_cfg gn false) a l == gstd gn a l) /\
     (forall gn, ~ aipsw_risk (wit_cfg gn true) true l == gstd gn true l).
 Proof.
-  exists wit_rows. repeat split.
-  - vm_compute in H. destruct H as [<-|[<-|[]]]; vm_compute; reflexivity.
-  - vm_compute in H. destruct H as [<-|[<-|[]]]; vm_compute; reflexivity.
+  exists wit_rows.
+  split; [|split; [|split; [|split; [|split; [|split; [|split]]]]]].
+  - intros s Hs. destruct (wit_strata s Hs) as [->| ->]; vm_compute; split; reflexivity.
   - intros r Hr. vm_compute in Hr. repeat (destruct Hr as [<-|Hr]; [vm_compute; reflexivity|]). contradiction.
   - intros r Hr _. vm_compute in Hr. repeat (destruct Hr as [<-|Hr]; [vm_compute; reflexivity|]). contradiction.
-  - vm_compute in H. repeat (destruct H as [<-|H]; [vm_compute; reflexivity|]). contradiction.
-  - vm_compute in H. repeat (destruct H as [<-|H]; [vm_compute; reflexivity|]). contradiction.
-  - destruct gn, stab; vm_compute; reflexivity.
-  - destruct gn, stab; vm_compute; reflexivity.
+  - intros r Hr. vm_compute in Hr. repeat (destruct Hr as [<-|Hr]; [split; vm_compute; reflexivity|]). contradiction.
+  - intros gn stab. destruct gn, stab; split; vm_compute; reflexivity.
   - intros gn. destruct gn; vm_compute; discriminate.
   - intros gn a. destruct gn, a; vm_compute; reflexivity.
   - intros gn. destruct gn; vm_compute; discriminate.
@@ -462,3 +463,36 @@ Definition wit_rows_Qsat : list grow :=
 Example aipsw_stabilized_Qsat_witness :
   forall gn a, aipsw_risk (wit_cfg gn true) a wit_rows_Qsat == gstd gn a wit_rows_Qsat.
 Proof. intros gn a. destruct gn, a; vm_compute; reflexivity. Qed.
+
+(* ------------------------------------------------------------------------------------------------
+   the executable twins evaluated by the run are the models the theorems speak about *)
+Theorem ipsw_risk_x_eq c a l : ipsw_risk_x c a l == ipsw_risk c a l.
+Proof. unfold ipsw_risk_x, ipsw_risk, ipsw_num, ipsw_den. rewrite !Qsumr_eq. reflexivity. Qed.
+Theorem gt_risk_x_eq gn a l : gt_risk_x gn a l == gt_risk gn a l.
+Proof. unfold gt_risk_x, gt_risk. rewrite !Qsumr_eq. reflexivity. Qed.
+Theorem aipsw_risk_x_eq c a l : aipsw_risk_x c a l == aipsw_risk c a l.
+Proof. unfold aipsw_risk_x, aipsw_risk. rewrite !Qsumr_eq. reflexivity. Qed.
+
+(* ------------------------------------------------------------------------------------------------
+   bridge to the shared specification of Base.Rows: seen as analysis rows whose outcome is observed exactly when the
+   row is sampled, the generalize target is the all-rows standardisation `std TAll` used by C01/C02 *)
+Definition g_to_row (r : grow) : row :=
+  {| st := gs r; trt := ga r; yv := if smp r then Some (gy r) else None; wt := 1; g1 := pa r; q1 := gq1 r; q0 := gq0 r;
+     m1 := 1; m0 := 1 |}.
+
+Lemma bridge_sum (f : row -> Q) s l :
+  Qsum f (cellrows s (map g_to_row l)) == Qsum (fun r => ind (g_in s r) * f (g_to_row r)) l.
+Proof. unfold cellrows. rewrite Qsum_filter_ind, Qsum_map. apply Qsum_ext_all. intros r. reflexivity. Qed.
+
+Theorem gstd_generalize_is_std a l : gstd true a l == std TAll a (map g_to_row l).
+Proof.
+  unfold gstd, std. cbn [tgt_w tw].
+  assert (Es : strata (map g_to_row l) = gstrata l).
+  { unfold strata, gstrata. rewrite map_map. reflexivity. }
+  assert (EN : forall s, Nw s (map g_to_row l) == cN s l).
+  { intros s. unfold Nw, cN. rewrite bridge_sum. apply Qsum_ext_all. intros r. reflexivity. }
+  assert (EY : forall s, ybar s a (map g_to_row l) == ybarS s a l).
+  { intros s. unfold ybar, ybarS, Ysum, Nobs, cYS, cNSa. rewrite !bridge_sum. apply Qdiv_comp; apply Qsum_ext_all; intros r;
+      unfold arm, obs, yval, g_arm; cbn [g_to_row trt yv wt]; destruct (smp r); cbn [ind]; ring. }
+  rewrite Es. apply Qdiv_comp; apply Qsum_ext_all; intros s; rewrite ?EN, ?EY; reflexivity.
+Qed.
